@@ -121,6 +121,7 @@ package ct
 //@ fresh result0
 //@ ensures [result-xor-error] (result0 != nil) != (result1 != nil)
 //@ ensures [root-hash-must-be-32-bytes] len(r.SHA256RootHash) != 32 ==> result1 != nil
+//@ ensures [a-32-byte-root-and-a-completely-decoded-signature-are-accepted] len(r.SHA256RootHash) == 32 ==> um.called && (um.res1 == nil && len(um.res0) == 0 ==> result1 == nil)
 //@ ensures [signature-must-decode-completely] um.called && (um.res1 != nil || len(um.res0) > 0) ==> result1 != nil
 //@ ensures [fields-copied-without-loss] result1 == nil ==> result0.TreeSize == r.TreeSize && result0.Timestamp == r.Timestamp && result0.Version == V1 && (forall j int :: 0 <= j && j < 32 ==> result0.SHA256RootHash[j] == r.SHA256RootHash[j]) && result0.TreeHeadSignature == after(um, ds)
 //@ at um assert [decodes-the-signature-field] um.b == r.TreeHeadSignature
@@ -135,6 +136,7 @@ package ct
 //@ fresh result0
 //@ ensures [result-xor-error] (result0 != nil) != (result1 != nil)
 //@ ensures [log-id-must-be-32-bytes] len(r.ID) != 32 ==> result1 != nil
+//@ ensures [a-32-byte-id-base64-extensions-and-a-completely-decoded-signature-are-accepted] len(r.ID) == 32 ==> dec.called && (dec.res1 == nil ==> um.called && (um.res1 == nil && len(um.res0) == 0 ==> result1 == nil))
 //@ ensures [extensions-must-be-base64] dec.called && dec.res1 != nil ==> result1 != nil
 //@ ensures [signature-must-decode-completely] um.called && (um.res1 != nil || len(um.res0) > 0) ==> result1 != nil
 //@ ensures [fields-copied-without-loss] result1 == nil ==> result0.SCTVersion == r.SCTVersion && result0.Timestamp == r.Timestamp && result0.Extensions == dec.res0 && (forall j int :: 0 <= j && j < 32 ==> result0.LogID.KeyID[j] == r.ID[j]) && result0.Signature == after(um, ds)
@@ -183,6 +185,8 @@ package ct
 //@ ensures [leaf-must-decode-completely] ul.res1 != nil || len(ul.res0) > 0 ==> result1 != nil && !uc.called && !up.called
 //@ ensures [x509-extra-data-must-decode-completely] uc.called && (uc.res1 != nil || len(uc.res0) > 0) ==> result1 != nil
 //@ ensures [precert-extra-data-must-decode-completely] up.called && (up.res1 != nil || len(up.res0) > 0) ==> result1 != nil
+//@ ensures [a-completely-decoded-leaf-and-chain-are-accepted] ul.res1 == nil && len(ul.res0) == 0 && ((uc.called && uc.res1 == nil && len(uc.res0) == 0) || (up.called && up.res1 == nil && len(up.res0) == 0)) ==> result1 == nil
+//@ ensures [the-entry-type-of-the-leaf-selects-the-extra-data-layout] ul.res1 == nil && len(ul.res0) == 0 ==> (after(ul, ret.Leaf.TimestampedEntry.EntryType) == X509LogEntryType ==> uc.called) && (after(ul, ret.Leaf.TimestampedEntry.EntryType) == PrecertLogEntryType ==> up.called)
 //@ ensures [only-x509-and-precert-entries] result1 == nil ==> result0.Leaf.TimestampedEntry != nil && (result0.Leaf.TimestampedEntry.EntryType == X509LogEntryType || result0.Leaf.TimestampedEntry.EntryType == PrecertLogEntryType) && (result0.Leaf.TimestampedEntry.EntryType == X509LogEntryType ==> result0.Leaf.TimestampedEntry.X509Entry != nil) && (result0.Leaf.TimestampedEntry.EntryType == PrecertLogEntryType ==> result0.Leaf.TimestampedEntry.PrecertEntry != nil)
 //@ ensures [every-failure-is-a-fatal-error] result1 != nil ==> fatalErr(result1)
 //@ ensures [index-kept] result1 == nil ==> result0.Index == index
@@ -261,6 +265,9 @@ package ct
 //@ ensures [only-rsa-and-ecdsa-keys] typeof(pk) != *rsa.PublicKey && typeof(pk) != *ecdsa.PublicKey ==> result1 != nil
 //@ ensures [rsa-below-2048-bits-refused-unless-opted-in] typeof(pk) == *rsa.PublicKey && bl.res < 2048 && !old(AllowVerificationWithNonCompliantKeys) ==> result1 != nil
 //@ ensures [ecdsa-off-p256-refused-unless-opted-in] typeof(pk) == *ecdsa.PublicKey && *kp.res != *pp.res && !old(AllowVerificationWithNonCompliantKeys) ==> result1 != nil
+//@ ensures [an-rsa-key-of-2048-bits-or-more-is-accepted] typeof(pk) == *rsa.PublicKey && bl.called && bl.res >= 2048 ==> result1 == nil
+//@ ensures [a-p256-ecdsa-key-is-accepted] typeof(pk) == *ecdsa.PublicKey && kp.called && pp.called && *kp.res == *pp.res ==> result1 == nil
+//@ ensures [with-the-opt-in-every-rsa-or-ecdsa-key-is-accepted] old(AllowVerificationWithNonCompliantKeys) && (typeof(pk) == *rsa.PublicKey || typeof(pk) == *ecdsa.PublicKey) ==> result1 == nil
 //@ at bl assert [size-of-the-modulus-of-the-given-key] bl.x == as(pk, *rsa.PublicKey).N
 //@ at kp assert [curve-of-the-given-key] kp.recv == as(pk, *ecdsa.PublicKey).Curve
 
